@@ -205,6 +205,10 @@ class TTCFG(
         return TTCFG(start, rules, clean=True)
 
     def clean(self) -> None:
+        if self.start not in self.rules:
+            # no rule for the start symbol: the language is empty
+            self.rules = {}
+            return
         # 1) Only keep reachable states
         new_rules: Dict[Tuple[Type, Tuple[S, T]], Set[DerivableProgram]] = {}
         list_to_be_treated: Deque[
@@ -281,6 +285,8 @@ class TTCFG(
         """
         Return the total number of programs contained in this grammar.
         """
+        if self.start not in self.rules:
+            return 0
         _counts: Dict[Tuple[Type, Tuple[S, T]], Dict[T, int]] = {}
 
         def __compute__(state: Tuple[Type, Tuple[S, T]]) -> Dict[T, int]:
